@@ -793,7 +793,7 @@ def evaluate__parse_json_functions(self: XPathFunction, context: ta.ContextType 
     kwargs: dict[str, Any] = {'object_pairs_hook': json_object_pairs_to_map}
     if liberal or escape:
         kwargs['strict'] = False
-    if liberal:
+    if not liberal:
         def parse_constant(s: str) -> None:
             raise self.error('FOJS0001')
 
@@ -1414,7 +1414,7 @@ def evaluate__json_to_xml(self: XPathFunction, context: ta.ContextType = None) \
     kwargs: dict[str, Any] = {'object_pairs_hook': json_object_to_etree}
     if liberal or escape:
         kwargs['strict'] = False
-    if liberal:
+    if not liberal:
         def parse_constant(s: Any) -> None:
             raise self.error('FOJS0001')
 
